@@ -143,6 +143,15 @@ def finish(prop, tier, seed, packs, results, t0, a):
             known_hit.append((o, k))
         else:
             violations.append(o)
+    # A task the engine cannot complete any more (construct outside the subset, loop nest that no longer matches its
+    # contract, local the contract reads has disappeared, time-out) means: the obligations this task discharged on the
+    # unchanged tree can no longer be established for the current code.  Reported as the failed obligation
+    # `<task>.contract_applies_to_current_code` (never with a failing input); the replay file carries the engine's output.
+    for (tname, err, tr) in errors:
+        violations.append({"name": "%s.%s.contract_applies_to_current_code" % (prop, tname), "verdict": "undecided",
+                           "backend": "engine", "detail": "%s\n%s" % (err, tr[-3000:] if tr else ""), "model": None,
+                           "goal": "every obligation of task %s is generated from the current source and discharged" % tname,
+                           "kind": "task", "line": None, "time": 0, "nhyps": 0})
     # bounded stand-ins (thorough tier, or quick if cheap)
     bounded = []
     if not a.only:
@@ -273,7 +282,7 @@ def finish(prop, tier, seed, packs, results, t0, a):
             print("  FAIL %s %s %s %s" % (o["name"], o["verdict"], o["detail"][:200], json.dumps(o["model"])[:600]))
     if violations:
         return 1
-    if errors or not obls:
+    if not obls:
         return 3
     return 0
 
